@@ -25,6 +25,19 @@ reg("C03", "reference-model monitor (float64 GAE recursion) over real estimator 
     "Exploration, not proof: unbounded reals and lengths are sampled.",
     "Trusts NumPy float64 arithmetic and the 40-line reference; float32 tolerance 1e-4*magnitude bound.")
 
+reg("C04", "history + executable model: real on-policy collection on finite MDPs replayed by a Python interpreter; stored value/log-prob re-evaluated under the unchanged policy",
+    "Held on every collected stream explored: each recorded step of real PPO/A2C/REINFORCE rollouts (collect_rollout under jit/vmap and "
+    "through iteration()) on random finite MDPs is replayed by a table interpreter: observation, stored action and its own value/log-prob, "
+    "clipped execution, reward incl. bootstrap only on truncation-without-termination, done flags, masks, restarts of env/TimeLimit/policy "
+    "state, carried step state. Exploration over sampled MDPs/keys/shapes.",
+    "Trusts the harness FiniteMDP/RefMDP pair and the policy's own evaluate_action/value as re-evaluation oracle.")
+reg("C05", "history + executable model: replay-buffer contents after real DQN/SAC reset()/iteration() read back in insertion order and replayed by a Python interpreter",
+    "Held on every stored stream explored: per-environment replay contents of real DQN/SAC warm-up and iterations on random finite MDPs "
+    "(observation carries state and episode clock) equal the interpreter's transitions: acting observation, chosen action, reward of the "
+    "clipped action, pre-reset successor observation, done/timeout flags, restarts, per-env counts learning_starts + k*num_steps, "
+    "stream continuity per environment (no foreign transition). Exploration over sampled configurations.",
+    "Trusts the harness FiniteMDP/RefMDP pair and the ring read-back order (decided separately by C06).")
+
 
 def main():
     props = [json.loads(l) for l in (ROOT / "properties.jsonl").read_text().splitlines() if l.strip()]
